@@ -80,4 +80,130 @@ theorem no_tail_without_tco (fuel : Nat) (cfg : Cfg) (htco : cfg.tco = false) (f
   · intro f args; exact (Res.isTail_false_iff _).mp (H.callNamed fr f args tail st (by simp [htco])) a
   · intro f args; exact (Res.isTail_false_iff _).mp (H.builtin fr f args tail st (by simp [htco])) a
 
+/-! ## 2. Only a self-call by name in tail position takes the tail path -/
+
+/-- A tail call can only come out of an evaluation that was offered the tail slot, with tco on, in
+a frame that has a recursion cell `name` which no local binding shadows, and from an expression that
+is syntactically a call by name of `name` in tail position (`TailPos`: the call itself, or the
+then/else argument of `if`, the second argument of `and`, `or`, `if_error`, nested). -/
+theorem tail_only_self_call (fuel : Nat) (cfg : Cfg) (fr : Frame) (e : Expr) (tail : Bool) (st st' : St)
+    (a : List Val) (h : eval fuel cfg fr e tail st = (.tail a, st')) :
+    tail = true ∧ cfg.tco = true ∧
+      ∃ name c, fr.self = some (name, c) ∧ lookup name fr.env = none ∧ TailPos name e :=
+  (tailOriginAt cfg fuel).eval fr e tail st a st' h
+
+example : TailPos "f" sumBody := .ifElse _ _ _ (.call _)
+
+/-- A self-call that is not in tail position is never treated as a tail call, whatever the slot:
+(1) a call of anything that is neither the recursion cell nor a forwarding native — so a self-call
+under an operator (`add(f(n-1), 1)`), in argument position (`g(f(n-1))`), through an alias
+(`let g = f; g(n-1)`) or inside a lambda body run by another frame (whose cell is not `f`);
+(2) a computed callee (a captured copy), tuples, arrays, items, variables, lambdas;
+(3) the condition of `if` and the first argument of `and`/`or`/`if_error` (the other arguments
+not being tail positions themselves);
+(4) anything at all in a frame without recursion cell (top level, anonymous lambda) or whose cell
+is shadowed. -/
+theorem non_tail_not_optimised (fuel : Nat) (cfg : Cfg) (fr : Frame) (tail : Bool) (st : St) (a : List Val) :
+    (∀ op args, op ∉ ["if", "and", "or", "if_error"] → (∀ c, fr.self ≠ some (op, c)) →
+        (eval fuel cfg fr (.call op args) tail st).1 ≠ .tail a) ∧
+    (∀ fe args es e i x fn, (eval fuel cfg fr (.callE fe args) tail st).1 ≠ .tail a ∧
+        (eval fuel cfg fr (.tup es) tail st).1 ≠ .tail a ∧ (eval fuel cfg fr (.arr es) tail st).1 ≠ .tail a ∧
+        (eval fuel cfg fr (.item e i) tail st).1 ≠ .tail a ∧ (eval fuel cfg fr (.var x) tail st).1 ≠ .tail a ∧
+        (eval fuel cfg fr (.lam fn) tail st).1 ≠ .tail a) ∧
+    (∀ c x y, (∀ name, ¬ TailPos name x ∧ ¬ TailPos name y) → (∀ v, fr.self ≠ some ("if", v)) →
+        (eval fuel cfg fr (.call "if" [c, x, y]) tail st).1 ≠ .tail a) ∧
+    (∀ op x y, op ∈ ["and", "or", "if_error"] → (∀ name, ¬ TailPos name y) → (∀ v, fr.self ≠ some (op, v)) →
+        (eval fuel cfg fr (.call op [x, y]) tail st).1 ≠ .tail a) ∧
+    ((fr.self = none ∨ ∃ name c v, fr.self = some (name, c) ∧ lookup name fr.env = some v) →
+        ∀ e, (eval fuel cfg fr e tail st).1 ≠ .tail a) := by
+  have key : ∀ e, (eval fuel cfg fr e tail st).1 = .tail a →
+      ∃ name c, fr.self = some (name, c) ∧ lookup name fr.env = none ∧ TailPos name e := by
+    intro e h
+    have := tail_only_self_call fuel cfg fr e tail st (eval fuel cfg fr e tail st).2 a (by rw [← h])
+    exact this.2.2
+  refine ⟨?_, ?_, ?_, ?_, ?_⟩
+  · intro op args hop hself h
+    obtain ⟨name, c, hs, _, hp⟩ := key _ h
+    rcases hp.inv with rfl | ⟨_, _, _, rfl, _⟩ | ⟨_, _, rfl | rfl | rfl, _⟩
+    · exact hself c hs
+    all_goals simp at hop
+  · intro fe args es e i x fn
+    refine ⟨?_, ?_, ?_, ?_, ?_, ?_⟩ <;> intro h <;> obtain ⟨_, _, _, _, hp⟩ := key _ h <;> cases hp
+  · intro c x y hxy hself h
+    obtain ⟨name, v, hs, _, hp⟩ := key _ h
+    rcases hp.inv with rfl | ⟨_, _, _, _, hargs, hp⟩ | ⟨_, _, h1 | h1 | h1, _⟩
+    · exact hself v hs
+    · simp only [List.cons.injEq, and_true] at hargs
+      obtain ⟨_, rfl, rfl⟩ := hargs
+      rcases hp with hp | hp
+      · exact (hxy name).1 hp
+      · exact (hxy name).2 hp
+    all_goals simp at h1
+  · intro op x y hop hy hself h
+    obtain ⟨name, v, hs, _, hp⟩ := key _ h
+    rcases hp.inv with rfl | ⟨_, _, _, rfl, _⟩ | ⟨_, _, _, hargs, hp⟩
+    · exact hself v hs
+    · simp at hop
+    · simp only [List.cons.injEq, and_true] at hargs
+      obtain ⟨_, rfl⟩ := hargs
+      exact hy name hp
+  · intro hfr e h
+    obtain ⟨name, c, hs, hl, _⟩ := key _ h
+    rcases hfr with hn | ⟨name', c', v, hs', hl'⟩
+    · rw [hn] at hs; cases hs
+    · rw [hs'] at hs; cases hs; rw [hl] at hl'; cases hl'
+
+/-- `fn f(n) { if(n == 0, 0, add(f(n - 1), 1)) }`: the self-call sits under an operator; offered the
+tail slot, the body runs the inner call as an ordinary call and returns a value. -/
+example :
+    let body : Expr := .call "if" [.call "eq" [.var "n", .int 0], .int 0,
+      .call "add" [.call "f" [.call "sub" [.var "n", .int 1]], .int 1]]
+    let c : Val := .clos (.mk (some "f") [.mk "n" none] [] body) [] []
+    eval 40 {} { env := [("n", .int 2)], self := some ("f", c), height := 1 } body true {} = (.val (.int 2), {}) := by
+  core_run
+
+/-! ## 4. A tail loop uses no depth and no calls; only the recursion counter grows -/
+
+/-- One iteration of the trampoline. If the body of the running closure (frame built by
+`callFrame` at height `h + 1`, declarations evaluated) ends with a tail call, the loop goes on
+with the new arguments **at the same height `h`**, **from exactly the state `st2` the body left**
+(the loop adds nothing to `calls` and writes nothing) and with the recursion counter `rec + 1`,
+provided `rec + 1` does not exceed the recursion limit; and it is the recursion violation exactly
+in the other case (`rec + 1 > l`). Neither the depth limit nor the call limit is consulted. -/
+theorem tail_loop_uses_no_depth_no_calls (fuel : Nat) (cfg : Cfg) (h : Nat) (f : Func) (dflts : List Val)
+    (env ps : List (String × Val)) (args newArgs : List Val) (rec : Nat) (st st1 st2 : St) (fr' : Frame)
+    (hd : depthOk cfg h)
+    (hb : bindParams f.params args dflts = some ps)
+    (hdecl : evalDecls fuel cfg (callFrame h f dflts env ps) f.decls st = (.ok fr', st1))
+    (hbody : eval fuel cfg fr' f.body true st1 = (.tail newArgs, st2)) :
+    (recOk cfg (rec + 1) →
+      tramp (fuel + 1) cfg h (.clos f dflts env) args rec st
+        = tramp fuel cfg h (.clos f dflts env) newArgs (rec + 1) st2) ∧
+    (∀ l, cfg.recLimit = some l → rec + 1 > l →
+      tramp (fuel + 1) cfg h (.clos f dflts env) args rec st = (.viol .recursion, st2)) :=
+  tramp_body_tail fuel cfg h f dflts env ps args newArgs rec st st1 st2 fr' hd hb hdecl hbody
+
+/-- the hypotheses are satisfiable: one turn of `f(3, 0)` under depth limit 2 and call limit 1 -/
+example : let cfg : Cfg := { depthLimit := some 2, callLimit := some 1, recLimit := some 5 }
+    depthOk cfg 0 ∧ recOk cfg (0 + 1) ∧
+    bindParams sumFn.params [.int 3, .int 0] [] = some [("n", .int 3), ("acc", .int 0)] ∧
+    evalDecls 20 cfg (callFrame 0 sumFn [] [] [("n", .int 3), ("acc", .int 0)]) sumFn.decls {} = (.ok (sumFrame 3 0), {}) ∧
+    eval 20 cfg (sumFrame 3 0) sumFn.body true {} = (.tail [.int 2, .int 3], {}) := by
+  refine ⟨?_, ?_, ?_, ?_, ?_⟩
+  · intro l hl; cases hl; decide
+  · intro l hl; cases hl; decide
+  · core_run
+  · simp [evalDecls, sumFn, Func.decls, callFrame, selfCell, sumFrame, sumClos, Func.name]
+  · core_run
+
+/-- The call counter is touched once per user call, before the trampoline starts — never by the
+loop: with a call limit, `callUser` adds one to `calls`, compares, and enters the loop with
+recursion counter 0. -/
+theorem call_counted_once_before_loop (fuel : Nat) (cfg : Cfg) (h : Nat) (c : Val) (args : List Val) (st : St)
+    (l : Nat) (he : firstErr args = none) (hl : cfg.callLimit = some l) :
+    callUser (fuel + 1) cfg h c args st =
+      if st.calls + 1 ≥ l then (.viol .calls, { st with calls := st.calls + 1 })
+      else tramp fuel cfg h c args 0 { st with calls := st.calls + 1 } := by
+  simp [callUser, he, hl]
+
 end XrayModel.C07
